@@ -1,4 +1,7 @@
 """C03 - the parse conforms to CommonMark: rendered HTML matches a compliant parser (the spec model CM) on the fragment F."""
+import itertools
+import re
+
 import core
 import cm
 import gen
@@ -35,10 +38,30 @@ def spaces(ctx):
     refs = ["&#35;", "&#x41;", "&#X41;", "&#x0000041;", "&#x000041;", "&#1234567;", "&#12345678;", "&#x;", "&#;", "&#0;", "&#xD800;", "&#x110000;", "&#60;b&#62;", "&#34;",
             "a &#65; b", "&#42;a&#42;", "*&#65;*", "`&#65;`", "    &#65;", "# &#65;", "- &#65;", "> &#x263A;", "&#65", "&# 65;", "&#x41g;", "&#x00000041;", "&#000065;", "a", ""]
     refd = list(gen.d_line(refs, 2))
+    # lists nested to depth three: every sequence of three to five items whose depth never grows by more than one, with and
+    # without a blank line in front of each item (tight / loose at every level), bullet and ordered, some items opening a quote
+    nest = []
+    for n in (3, 4, 5):
+        for depths in itertools.product((0, 1, 2), repeat=n - 1):
+            ds = (0,) + depths
+            if any(ds[i + 1] > ds[i] + 1 for i in range(n - 1)):
+                continue
+            for blanks in itertools.product((False, True), repeat=n - 1):
+                for marker, width in (("-", 2), ("1.", 3)):
+                    ls = []
+                    for i, dep in enumerate(ds):
+                        if i and blanks[i - 1]:
+                            ls.append("")
+                        ls.append(" " * (width * dep) + marker + " " + "abcde"[i])
+                    nest.append("\n".join(ls) + "\n")
+            if n <= 4:
+                ls = [" " * (2 * dep) + ("- > " if i == 0 else "- ") + "abcde"[i] for i, dep in enumerate(ds)]
+                nest.append("\n".join(ls) + "\n")
+    nest = list(gen.uniq(nest))
     if ctx.tier == "quick":
-        return {"V_leaf<=3": gen.sample(leaf, 4000, ctx.seed), "V_cont<=3": gen.sample(cont3, 4000, ctx.seed + 1), "V_cont=4": gen.sample(cont4, 3000, ctx.seed + 2), "V_cont+<=2": more, "code-spans": codes,
+        return {"nested-lists(5)": gen.sample(nest, 1500, ctx.seed + 6), "V_leaf<=3": gen.sample(leaf, 4000, ctx.seed), "V_cont<=3": gen.sample(cont3, 4000, ctx.seed + 1), "V_cont=4": gen.sample(cont4, 3000, ctx.seed + 2), "V_cont+<=2": more, "code-spans": codes,
                 "emphasis-runs(6)": gen.sample(em, 4000, ctx.seed + 3), "emphasis-in-blocks<=3": gen.sample(emb, 3000, ctx.seed + 4), "numeric-references<=2": refd}
-    return {"V_leaf<=3": leaf, "V_cont<=3": cont3, "V_cont=4": cont4, "V_cont+<=2": more, "code-spans": codes, "emphasis-runs(6)": em, "emphasis-in-blocks<=3": emb, "numeric-references<=2": refd}
+    return {"nested-lists(5)": nest, "V_leaf<=3": leaf, "V_cont<=3": cont3, "V_cont=4": cont4, "V_cont+<=2": more, "code-spans": codes, "emphasis-runs(6)": em, "emphasis-in-blocks<=3": emb, "numeric-references<=2": refd}
 
 
 def _enc_call(strs):
@@ -118,8 +141,245 @@ def _linkdest(ctx):
     ctx.unit("link-destination", kernel_strings=len(strs), documents=len(docs))
 
 
+def _label_call(strs):
+    from pymarkdown.links.link_parse_helper import LinkParseHelper
+    return [LinkParseHelper.normalize_link_label(s) for s in strs]
+
+
+def _defs_call(scripts):
+    """a script: list of ('add', label, value) | ('look', label) on a freshly initialised LinkParseHelper, as the parser uses it"""
+    from pymarkdown.links.link_parse_helper import LinkParseHelper
+    from pymarkdown.links.link_reference_titles import LinkReferenceTitles
+    out = []
+    for sc in scripts:
+        LinkParseHelper.initialize()
+        res = []
+        for op in sc:
+            if op[0] == "add":
+                LinkParseHelper.add_link_definition(LinkParseHelper.normalize_link_label(op[1]), LinkReferenceTitles(op[2], ""))
+            else:
+                ix, link, _ = LinkParseHelper.look_up_link(op[1], 7, "x")
+                res.append(None if ix == -1 else link)
+        out.append(res)
+    LinkParseHelper.initialize()
+    return out
+
+
+def _linklabel(ctx):
+    """the label kernel: normalize_link_label vs Model/LinkLabel.v norm_impl on every string over letters of both cases and all
+    six white-space characters; add_link_definition / look_up_link scripts vs build / look_up; documents with several
+    definitions for one label in different spellings"""
+    import itertools
+    import random
+    if "Model/LinkLabel.v" not in ctx.build.ok_files:
+        return
+    alpha = ["a", "B", "b", " ", "\t", "\n", "\x0b", "\x0c", "\r", "Z", "1", "]"]
+    n = 3 if ctx.tier == "quick" else 4
+    strs = [""] + ["".join(t) for k in range(1, n + 1) for t in itertools.product(alpha, repeat=k)]
+    strs += ["".join(t) for t in itertools.product(["a", "B", " ", "\t"], repeat=6)] + ["  Foo \t\n BAR  baz ", "A" * 30 + " " * 5 + "b"]
+    strs = list(dict.fromkeys(strs))
+    chunks = [strs[i:i + 800] for i in range(0, len(strs), 800)]
+    got = [r for ch in impl.pmap(_label_call, chunks, chunksize=1) for r in ch]
+    cases = [(core.cstr(s), core.cstr(r)) for s, r in zip(strs, got)]
+    bad = core.coq_mismatches(["PV.Base.Str", "PV.Model.LinkLabel"], "", "norm_impl", cases, "c03ll", eqb="str_eqb", shard=800)
+    ctx.corr_cases += len(cases)
+    for _ in strs:
+        ctx.count(1, "link-label/kernel")
+    for i in bad[:5]:
+        # is the property itself broken on this label?  two spellings of one label (CommonMark: case, kind and amount of white space) must normalise alike
+        s0 = strs[i]
+        twin = " " + s0.upper().replace(" ", "\t ") + "\n"
+        if _label_call([s0]) != _label_call([twin]) and s0.strip(" \t\n\x0b\x0c\r"):
+            ctx.violation("link-label", {"label": s0, "other_spelling": twin}, f"two spellings of one label are normalised to {_label_call([s0])[0]!r} and {_label_call([twin])[0]!r}", group="linklabel")
+        else:
+            ctx.broke(f"model/implementation correspondence (Model/LinkLabel.v norm_impl) differs on {s0!r}: implementation {got[i]!r}")
+    # the map of definitions
+    rnd = random.Random(ctx.seed + 41)
+    labels = ["foo", "Foo", " FOO ", "foo  bar", "Foo\tBAR", "foo\nbar", "b", "B ", "", "  ", "\t", "x]"]
+    scripts = []
+    for _ in range(300 if ctx.tier == "quick" else 3000):
+        sc = []
+        for _ in range(rnd.randint(1, 6)):
+            sc.append(("add", rnd.choice(labels), "/u" + str(len(sc))) if rnd.random() < 0.6 else ("look", rnd.choice(labels)))
+        sc.append(("look", rnd.choice(labels)))
+        scripts.append(sc)
+    sres = [r for ch in impl.pmap(_defs_call, [scripts[i:i + 100] for i in range(0, len(scripts), 100)], chunksize=1) for r in ch]
+    defs = ("Inductive op := Add (l v : str) | Look (l : str).\n"
+            "Fixpoint runops (d : defmap str) (ops : list op) : list (option str) := match ops with [] => [] | Add l v :: r => runops (add_def str d (norm_impl l, v)) r | Look l :: r => look_up str d l :: runops d r end.\n"
+            "Definition o_eqb (a b : option str) := match a, b with Some x, Some y => str_eqb x y | None, None => true | _, _ => false end.\n"
+            "Definition run0 (ops : list op) := runops [] ops.\n")
+    cases = []
+    for sc, r in zip(scripts, sres):
+        ops = core.clist((f"Add {core.cstr(o[1])} {core.cstr(o[2])}" if o[0] == "add" else f"Look {core.cstr(o[1])}" for o in sc), "op")
+        cases.append((ops, core.clist(("None" if x is None else f"(Some {core.cstr(x)})" for x in r), "(option str)")))
+        ctx.count(1, "link-label/definition-script")
+    bad = core.coq_mismatches(["PV.Base.Str", "PV.Model.LinkLabel"], defs, "run0", cases, "c03ld2", eqb="(list_eqb o_eqb)", shard=300)
+    ctx.corr_cases += len(cases)
+    for i in bad[:4]:
+        ctx.broke(f"model/implementation correspondence (Model/LinkLabel.v add_def / look_up) differs on the script {scripts[i]}: implementation {sres[i]}")
+    # documents: two or three definitions of one label in different spellings, used through a fourth spelling
+    sp = ["foo", "Foo", "FOO", "foo bar", "Foo  BAR", "foo\tbar", "Foo\n bar", "b", "B"]
+    docs = []
+    for a, b, u in itertools.product(sp, repeat=3):
+        docs.append((f"[{a}]: /1\n[{b}]: /2\n\n[{u}]\n", (a, b, u)))
+    if ctx.tier == "quick":
+        docs = gen.sample(docs, 200, ctx.seed)
+    pyh = impl.pmap(_py_html, [d[0] for d in docs], chunksize=64)
+    norm = dict(zip(sp, _label_call(sp)))
+    for (doc, (a, b, u)), ph in zip(docs, pyh):
+        ctx.count(1, "link-label/document")
+        ctx.seen(doc)
+        want_target = "/1" if norm[u] == norm[a] else "/2" if norm[u] == norm[b] else None
+        if ph is None or ph.startswith("EXC:"):
+            continue
+        has = re.findall(r'href="([^"]*)"', ph)
+        if (has[:1] or [None])[0] != want_target:
+            mh = _mdit(doc)
+            if (re.findall(r'href="([^"]*)"', mh)[:1] or [None])[0] == want_target:
+                ctx.violation("link-label", {"doc": doc}, f"the reference resolves to {has[:1]} ; the first definition with a matching label (model and markdown-it) is {want_target}", group="linklabel-doc")
+            else:
+                ctx.broke(f"link-label documents: model {want_target}, PyMarkdown {has[:1]}, markdown-it differs from the model on {doc!r}")
+    ctx.unit("link-label", kernel_strings=len(strs), definition_scripts=len(scripts), documents=len(docs))
+
+
+def _tb_call(lines):
+    from pymarkdown.leaf_blocks.thematic_leaf_block_processor import ThematicLeafBlockProcessor as T
+    out = []
+    for ln in lines:
+        k = len(ln) - len(ln.lstrip(" \t"))
+        try:
+            out.append(T.is_thematic_break(ln, k, ln[:k]))
+        except BaseException as e:  # noqa
+            out.append(("EXC:" + type(e).__name__, None))
+    return out
+
+
+def _first_is_break(doc):
+    st, toks = impl.parse(doc)
+    if st != "ok":
+        return None
+    return bool(toks) and toks[0].is_thematic_break
+
+
+def _thematic(ctx):
+    """the thematic-break kernel: is_thematic_break vs Model/ThematicBreak.v tb_impl on every line over {-, *, _, space, tab, a};
+    then the same lines as one-line documents: the first token is a thematic break exactly when the specification says so"""
+    import itertools
+    if "Model/ThematicBreak.v" not in ctx.build.ok_files:
+        return
+    n = 4 if ctx.tier == "quick" else 6
+    lines = ["".join(t) for k in range(1, n + 1) for t in itertools.product("-*_ \ta", repeat=k)]
+    if ctx.tier == "quick":
+        lines += gen.sample(["".join(t) for t in itertools.product("-*_ \ta", repeat=5)], 1500, ctx.seed)
+    lines = [l for l in lines if l.strip(" \t")] + ["    ---", " \t---", "  \t- - -", "-" * 40, "- " * 20, "*\t*\t*\t", "_ _ _ _ a"]
+    lines = list(dict.fromkeys(lines))
+    got = [r for ch in impl.pmap(_tb_call, [lines[i:i + 2000] for i in range(0, len(lines), 2000)], chunksize=1) for r in ch]
+    defs = ("Definition lead_blank (s : str) : nat := (fix f (s : str) : nat := match s with c :: r => if is_blank_c c then S (f r) else O | [] => O end) s.\n"
+            "Definition run_tb (ln : str) := let k := lead_blank ln in tb_impl ln k (taken k ln) false true.\n"
+            "Definition spec_tb (ln : str) := let k := lead_blank ln in tb_spec (taken k ln) (dropn k ln).\n"
+            "Definition r_eqb (a b : option (N * nat)) := match a, b with Some (c, i), Some (d, j) => N.eqb c d && Nat.eqb i j | None, None => true | _, _ => false end.\n")
+    cases = []
+    for ln, (c, e) in zip(lines, got):
+        ctx.count(1, "thematic-break/kernel")
+        cases.append((core.cstr(ln), "None" if c is None or str(c).startswith("EXC:") else f"(Some ({ord(c)}%N, {e}%nat))"))
+    bad = core.coq_mismatches(["PV.Base.Str", "PV.Model.Tabs", "PV.Model.ThematicBreak"], defs, "run_tb", cases, "c03tb", eqb="r_eqb", shard=1500)
+    ctx.corr_cases += len(cases)
+    spec = core.coq_eval(["PV.Base.Str", "PV.Model.Tabs", "PV.Model.ThematicBreak"], defs, [f"spec_tb {core.cstr(ln)}" for ln in lines], tag="c03tbs", shard=1500)
+    spec = [x.strip() == "true" for x in spec]
+    for i in bad[:6]:
+        # the failing input: the line as a document, judged by the specification predicate and by markdown-it
+        mh = _mdit(lines[i] + "\n")
+        if ("<hr" in mh) == spec[i] and (got[i][0] is not None) != spec[i]:
+            ctx.violation("thematic-break", {"line": lines[i]}, f"is_thematic_break answers {got[i]!r}; CommonMark 4.1 (Model/ThematicBreak.v tb_spec, and markdown-it) says {'a break' if spec[i] else 'no break'}", group="thematic-break")
+        else:
+            ctx.broke(f"model/implementation correspondence (Model/ThematicBreak.v tb_impl) differs on {lines[i]!r}: implementation {got[i]!r}")
+    docs = [ln + "\n" for ln in lines] if ctx.tier == "thorough" else [ln + "\n" for ln in gen.sample(lines, 1500, ctx.seed)]
+    isb = impl.pmap(_first_is_break, docs, chunksize=128)
+    sp = dict(zip(lines, spec))
+    for d, b in zip(docs, isb):
+        ctx.count(1, "thematic-break/document")
+        ctx.seen(d)
+        if b is None:
+            continue
+        if b != sp[d[:-1]]:
+            mh = _mdit(d)
+            if ("<hr" in mh) == sp[d[:-1]]:
+                ctx.violation("thematic-break", {"doc": d}, f"the one-line document {'is' if b else 'is not'} parsed as a thematic break; the specification predicate and markdown-it say {'break' if sp[d[:-1]] else 'no break'}", group="thematic-break-doc")
+            else:
+                ctx.unit("thematic-break", documents_where_another_block_takes_the_line=1)
+    ctx.unit("thematic-break", lines=len(lines), documents=len(docs))
+
+
+def _atx_call(lines):
+    from pymarkdown.leaf_blocks.atx_leaf_block_processor import AtxLeafBlockProcessor as A
+    out = []
+    for ln in lines:
+        k = len(ln) - len(ln.lstrip(" \t"))
+        try:
+            out.append(A.is_atx_heading(ln, k, ln[:k]))
+        except BaseException as e:  # noqa
+            out.append(("EXC:" + type(e).__name__, None, None, None))
+    return out
+
+
+def _first_is_atx(doc):
+    st, toks = impl.parse(doc)
+    if st != "ok":
+        return None
+    return (toks[0].hash_count if toks and toks[0].is_atx_heading else 0)
+
+
+def _atx(ctx):
+    """the ATX kernel: is_atx_heading vs Model/AtxOpen.v atx_impl on every line over {#, space, tab, a}; the same lines as
+    one-line documents: the first token is an ATX heading of the level the specification gives, or none"""
+    import itertools
+    if "Model/AtxOpen.v" not in ctx.build.ok_files:
+        return
+    n = 5 if ctx.tier == "quick" else 7
+    lines = ["".join(t) for k in range(1, n + 1) for t in itertools.product("# \ta", repeat=k)]
+    lines = [l for l in lines if "#" in l] + ["#" * 6 + " a", "#" * 7 + " a", "   " + "#" * 6, "    # a", " \t# a", "#\ta #", "######\t"]
+    lines = list(dict.fromkeys(lines))
+    got = [r for ch in impl.pmap(_atx_call, [lines[i:i + 4000] for i in range(0, len(lines), 4000)], chunksize=1) for r in ch]
+    defs = ("Definition lead_blank (s : str) : nat := (fix f (s : str) : nat := match s with c :: r => if is_blank_c c then S (f r) else O | [] => O end) s.\n"
+            "Definition run_atx (ln : str) := let k := lead_blank ln in atx_impl ln k (taken k ln) false.\n"
+            "Definition spec_atx (ln : str) := let k := lead_blank ln in if atx_spec (taken k ln) (dropn k ln) then length (run_of is_hash (dropn k ln)) else O.\n"
+            "Definition r_eqb (a b : option (nat * nat * str)) := match a, b with Some (i, h, w), Some (j, g, v) => Nat.eqb i j && Nat.eqb h g && str_eqb w v | None, None => true | _, _ => false end.\n")
+    cases = []
+    for ln, r in zip(lines, got):
+        ctx.count(1, "atx/kernel")
+        cases.append((core.cstr(ln), f"(Some ({r[1]}%nat, {r[2]}%nat, {core.cstr(r[3])}))" if r[0] is True else "None"))
+    bad = core.coq_mismatches(["PV.Base.Str", "PV.Model.Tabs", "PV.Model.AtxOpen"], defs, "run_atx", cases, "c03atx", eqb="r_eqb", shard=2500)
+    ctx.corr_cases += len(cases)
+    spec = [int(x) for x in core.coq_eval(["PV.Base.Str", "PV.Model.Tabs", "PV.Model.AtxOpen"], defs, [f"spec_atx {core.cstr(ln)}" for ln in lines], tag="c03atxs", shard=2500)]
+    import re as _re
+    for i in bad[:6]:
+        mh = _mdit(lines[i] + "\n")
+        m = _re.match(r"<h(\d)", mh)
+        lvl = int(m.group(1)) if m else 0
+        if lvl == spec[i] and (got[i][2] or 0) != spec[i]:
+            ctx.violation("atx", {"line": lines[i]}, f"is_atx_heading answers {got[i]!r}; CommonMark 4.2 (Model/AtxOpen.v atx_spec, and markdown-it) gives level {spec[i]} (0 = no heading)", group="atx")
+        else:
+            ctx.broke(f"model/implementation correspondence (Model/AtxOpen.v atx_impl) differs on {lines[i]!r}: implementation {got[i]!r}")
+    docs = [ln + "\n" for ln in (lines if ctx.tier == "thorough" else gen.sample(lines, 1500, ctx.seed))]
+    lv = impl.pmap(_first_is_atx, docs, chunksize=128)
+    sp = dict(zip(lines, spec))
+    for d, b in zip(docs, lv):
+        ctx.count(1, "atx/document")
+        ctx.seen(d)
+        if b is None:
+            continue
+        if b != sp[d[:-1]]:
+            mh = _mdit(d)
+            m = _re.match(r"<h(\d)", mh)
+            if (int(m.group(1)) if m else 0) == sp[d[:-1]]:
+                ctx.violation("atx", {"doc": d}, f"the one-line document starts with an ATX heading of level {b} (0 = none); the specification predicate and markdown-it say {sp[d[:-1]]}", group="atx-doc")
+            else:
+                ctx.unit("atx", documents_where_markdown_it_differs_from_the_predicate=1)
+    ctx.unit("atx", lines=len(lines), documents=len(docs))
+
+
 def run(ctx):
-    ctx.prove("Props/C03.v", ["Spec/CMBlock.v", "Proofs/CMProofs.v", "Proofs/CMFuel.v", "Proofs/CMInlineProofs.v", "Model/LinkDest.v", "Proofs/LinkDestProofs.v", "Extract/Extract.v"])
+    ctx.prove("Props/C03.v", ["Model/AtxOpen.v", "Proofs/AtxOpenProofs.v", "Model/Tabs.v", "Proofs/TabsProofs.v", "Model/ThematicBreak.v", "Proofs/ThematicBreakProofs.v", "Model/LinkLabel.v", "Proofs/LinkLabelProofs.v", "Spec/CMBlock.v", "Proofs/CMProofs.v", "Proofs/CMFuel.v", "Proofs/CMInlineProofs.v", "Model/LinkDest.v", "Proofs/LinkDestProofs.v", "Extract/Extract.v"])
     # ---- (0) the spec model itself: the CommonMark examples inside F, and markdown-it on a sample
     exs = [e for e in cm.spec_examples() if "\t" not in e["markdown"]]
     res = cm.cm_html_many([e["markdown"] for e in exs])
@@ -176,17 +436,23 @@ def run(ctx):
     ctx.unit("spec_model_validation", markdown_it_sample=len(sample), markdown_it_differs=len(mdiff), examples=mdiff[:5], cm_wrong_in_threeway=cm_wrong)
     ctx.corr_cases += len(keep)
     _linkdest(ctx)
+    _linklabel(ctx)
+    _thematic(ctx)
+    _atx(ctx)
     ctx.sample({"doc": docs[keep[5]], "html": cmres[keep[5]][1]})
     ctx.trusted += [
         "the spec model coq/Spec/CMBlock.v is a specification written from the CommonMark text (validated each run against the CommonMark 0.31.2 examples inside F and against the vendored markdown-it-py on a sample); it is NOT a model of PyMarkdown",
         "extraction + driver.ml; norm_html (newlines next to tags outside <pre>)",
         "link destinations: Model/LinkDest.v encode_impl (vm_compute) vs LinkParseHelper.__encode_link_destination called directly on every string over a 12-character alphabet up to a length; whole link / image / definition documents vs the href the model demands (markdown-it asked on a difference)",
+        "link labels: Model/LinkLabel.v norm_impl / add_def / look_up (vm_compute) vs LinkParseHelper.normalize_link_label on every string over a 12-character alphabet up to a length, and vs add_link_definition / look_up_link on random scripts; documents with two definitions of one label in different spellings",
+        "thematic breaks: Model/ThematicBreak.v tb_impl (vm_compute) vs ThematicLeafBlockProcessor.is_thematic_break on every line over {-, *, _, space, tab, a} up to a length; the same lines as one-line documents vs tb_spec",
+        "ATX openings: Model/AtxOpen.v atx_impl (vm_compute) vs AtxLeafBlockProcessor.is_atx_heading on every line with a # over {#, space, tab, a} up to a length; the same lines as one-line documents vs atx_spec",
         "on a disagreement markdown-it-py is asked: only PyMarkdown-vs-(CM = markdown-it) counts as a violation with a two-party witness; CM-vs-both breaks the check (spec model at fault)",
     ]
     return ctx.finish(
         level="other",
         extra_cov={"exhaustive": ctx.tier == "thorough", "explanation": "theorems are about the spec model CM (escape safety, tag balance of its renderer, fragment membership); that PyMarkdown refines CM is decided by comparing rendered HTML on enumerated documents of the fragment F"},
-        rule="all documents of <= 3 lines over a 23-template leaf vocabulary and over a 16-template container vocabulary, 4-line container documents, 2-line documents over an extended container vocabulary, restricted to the fragment F (no tabs, no inline markup characters); the link-destination kernel on all strings of <= 4 (quick 3) characters over a 12-character alphabet + 5-character strings over 5, and link/image/definition documents built from them; quick = seed-selected subsets; non-trivial = a document of 3+ lines; distinct by document",
+        rule="all documents of <= 3 lines over a 23-template leaf vocabulary and over a 16-template container vocabulary, 4-line container documents, 2-line documents over an extended container vocabulary, lists nested to depth three (3-5 items, tight / loose at every level, bullet and ordered), restricted to the fragment F (no tabs, no inline markup characters); the link-destination kernel on all strings of <= 4 (quick 3) characters over a 12-character alphabet + 5-character strings over 5, and link/image/definition documents built from them; the label kernel on all strings of <= 4 (quick 3) characters over letters of both cases and the six white-space characters, 300 / 3000 definition scripts, 200 / 729 documents with competing definitions; the thematic-break kernel on all lines of <= 4 (+ 1500 of 5) / 6 characters over {-, *, _, space, tab, a} and those lines as documents; the ATX kernel on all lines of <= 5 / 7 characters over {#, space, tab, a}; quick = seed-selected subsets; non-trivial = a document of 3+ lines; distinct by document",
         assumptions=["outside F (links apart from their destination, HTML blocks, backslash escapes, named references, tabs) nothing is claimed",
                      "documents that do not parse are C01's business"],
     )
